@@ -5,7 +5,7 @@ DRIVER = "post"
 RULE = ("deterministic schedules compared with the transition system: posts from the loop goroutine and from up to 6 other "
         "goroutines, in every order of <= 3 posters x <= 2 polls, handlers that post (nesting depth to 4, fan-out to 3), polls "
         "with nothing queued; plus concurrent phases: 1-8 goroutines x 50-400 handlers x 0-2 nested posts racing the loop, "
-        "which arms and disarms a timer between polls; a watchdog (3 s) reports a blocked Post or poll as DEADLOCK. "
+        "which arms and disarms a timer between polls; 6000-60000 rounds of a post racing the dispatch of the previous one while the loop blocks in epoll_wait; a watchdog (3 s) reports a blocked Post or poll as DEADLOCK. "
         "distinct = (queue length, batch, eventfd counter, pending, executed) model states; non-trivial = more than one "
         "handler queued")
 EXHAUSTIVE = {"quick": False, "thorough": False}
@@ -15,6 +15,7 @@ CLAUSES = {"1": "a handler ran twice or a handler ran that was never posted",
            "4": "handlers posted by one goroutine ran out of order (or a nested handler before its parent)",
            "5": "a posted handler never ran although the loop kept polling",
            "6": "Pending() / Posted() not exact after everything ran",
+           "7": "lost wake-up: the loop sleeps in epoll_wait while a handler is queued and nobody is about to signal",
            "race": "the race detector reported a data race between Post and the loop",
            "panic": "call panicked"}
 ASSUMPTIONS = ["handlers themselves are race-free with the harness (they only append to a mutex-protected log)"]
@@ -86,6 +87,9 @@ def stress_cases(rng, q):
                       [(1, 50, 0), (2, 400, 0), (4, 100, 1), (8, 100, 2), (8, 400, 1), (3, 200, 2), (6, 300, 0), (8, 50, 2)]):
         for rep in range(1 if q else 4):
             cases.append(("case", ["stress %d %d %d %d" % (ng, m, nn, rng.randrange(1000)), "expectidle", "post 1", "pollone", "expectidle"]))
+    # the loop blocked in epoll_wait, a post racing the dispatch of the previous one
+    for rep in range(2 if q else 8):
+        cases.append(("case", ["race %d %d %d" % (6000 if q else 60000, rng.choice([800, 1500, 3000]), rng.randrange(1000)), "expectidle"]))
     return cases
 
 
